@@ -387,6 +387,7 @@ func runOwnership(id string, parts []string) string {
 	}
 	return guard(id, 60*time.Second, func() string {
 		mode := f["mode"]
+		pool.VerifPoison(true) // tracking of get/release pairs starts with the first enable and stays on
 		if mode == "onep" {
 			pool.VerifPoison(false)
 			old := runtime.GOMAXPROCS(1)
